@@ -27,6 +27,9 @@ func (g *Gen) SearchCounterexample(header string, s *SolveResult, results []*FnR
 		return nil
 	}
 	var b strings.Builder
+	if r.header != "" {
+		header = r.header
+	}
 	for _, l := range strings.Split(header, "\n") {
 		if strings.Contains(l, "(forall ") || strings.Contains(l, "(exists ") {
 			continue
